@@ -155,6 +155,19 @@ def run_job(job, rec):
                       lambda: f"{desc}: d K / d theta[{i}] differs from the numerical derivative by "
                       f"{np.abs(g - num[i]).max() if g.shape == (n, n) else g.shape} (gradient scale {gs:.3e}, tol {tol:.2e})", rec.context)
 
+        # ---- integer-typed hyper-parameters / points give the same matrices as the same values as floats
+        if c % 3 == 1 and not cp_positions(spec, n, d, x):
+            ti = np.round(theta).astype(int)
+            ui = np.round(u / np.where(np.ptp(x, axis=0) > 0, np.ptp(x, axis=0), 1.0) * 4).astype(int)
+            if np.all(np.abs(ui) < 10**6):
+                A1, A2 = guarded(K.build_covariance, ti), guarded(K.build_covariance, ti.astype(float))
+                G1, G2 = guarded(K.covariance_and_gradients, ti), guarded(K.covariance_and_gradients, ti.astype(float))
+                C1, C2 = guarded(K, ui, ui, ti), guarded(K, ui.astype(float), ui.astype(float), ti.astype(float))
+                rec.count("integer_input_cases")
+                okd = not any(isinstance(v, Raised) for v in (A1, A2, G1, G2, C1, C2)) and np.allclose(A1, A2, rtol=1e-12, atol=0) and np.allclose(C1, C2, rtol=1e-12, atol=0) \
+                    and all(np.allclose(a, b, rtol=1e-12, atol=0) for a, b in zip(G1[1], G2[1]))
+                rec.check(okd, "depends-on-dtype", lambda: f"{desc}: integer-typed hyper-parameters / points give different matrices from the same values as floats", rec.context)
+
         # ---- history: the same hyper-parameter array modified in place between calls
         if c % 2 == 0:
             th = np.array(theta, dtype=float)
@@ -163,8 +176,13 @@ def run_job(job, rec):
             if free:
                 guarded(K.build_covariance, th)
                 guarded(K.covariance_and_gradients, th)
+                k1 = int(rng.choice(free))
+                th[k1] -= float(rng.uniform(0.2, 0.6))      # first in-place update (forces any cache to rebuild on this array)
+                guarded(K.build_covariance, th)
+                guarded(K.covariance_and_gradients, th)
+                guarded(K, x, x, th)
                 k0 = int(rng.choice(free))
-                th[k0] += float(rng.uniform(0.2, 0.6))
+                th[k0] += float(rng.uniform(0.2, 0.6))      # second in-place update: judged
                 B2 = guarded(K.build_covariance, th)
                 KG2 = guarded(K.covariance_and_gradients, th)
                 P2 = guarded(K, x, x, th)
